@@ -174,3 +174,71 @@ PROPS["C16"] = dict(
     check_names={101: "a valid encoding of v is coerced to exactly v / the returned map is the declared subset of args + env",
                  102: "an ill-formed value (or corrupted envelope) is rejected with an error", 103: "panic"},
 )
+
+COMPILE_TB = TB_COMMON + [
+    "the back end is modelled to an abstract Conway transaction (coq/Compile.v); the harness decodes the real payload with pallas and prints the same abstract view; address parsing, bech32, the address-to-credential projections and native-script decoding of pallas are oracle tables filled from the real functions",
+    "the harness crate is built with overflow-checks = true so that unchecked arithmetic shows up as a panic",
+]
+COMPILE_MODEL = ["Base.v", "Assets.v", "Select.v", "Tir.v", "Reduce.v", "PlutusData.v", "Interop.v", "Compile.v"]
+
+def _only(ids_ok):
+    def f(ids):
+        return [i for i in ids if ids_ok(i)]
+    return f
+
+def _cls(mapping):
+    def classify(ids, text):
+        s = set(ids)
+        if s and s <= set(mapping.keys()):
+            return mapping[sorted(s)[0]]
+        return None
+    return classify
+
+PROPS["C02"] = dict(
+    level="proof", runner="C02", model_files=COMPILE_MODEL, proof_files=["Assets_proofs.v", "PlutusData_proofs.v", "Compile_proofs.v"],
+    check_files=["Compile_check.v"],
+    theorems=["C02_u64_exact_or_error", "C02_u64_out_of_range_is_error", "C02_i64_exact_or_error", "C02_lovelace_exact_in_range",
+              "C02_native_exact_in_range", "C02_mint_exact_or_error", "C02_negative_lovelace_refuted", "C02_negative_native_refuted"],
+    partial=["the ledger balance equation of whole balanced templates is evaluated per case through the exact multi-asset denotation (clauses 101, 104), not stated as one theorem",
+             "i128 overflow inside CanonicalAssets + / - (assets.rs) is outside the model"],
+    trusted_base=COMPILE_TB, assumptions=["28-byte policies; amounts are closed integer expressions"],
+    keep_ids=_only(lambda i: i in (1, 2) or 100 <= i < 120),
+    classify=_cls({111: "output_lovelace_outside_u64", 112: "output_native_amount_negative_or_huge"}),
+    check_names={101: "every output's lovelace and native amounts equal the exact value of their source expressions",
+                 102: "fee exact", 103: "validity slots exact", 104: "mint field = mints - burns, class by class", 105: "metadata integers exact",
+                 111: "an output's lovelace denotes a value outside [0, 2^64) and compilation succeeded",
+                 112: "a native asset entry denotes a negative or >= 2^63 amount and compilation succeeded"},
+)
+PROPS["C08"] = dict(
+    level="proof", runner="C08", model_files=COMPILE_MODEL, proof_files=["Compile_proofs.v"], check_files=["Compile_check.v"],
+    theorems=["C08_sorted_inputs_perm", "C08_index_points_at_item", "C08_order_strict_total"],
+    partial=["that the insertion sort yields the ledger's order (sortedness) and the end-to-end map equality are checked per case (clause 201) against the specification-side map, not yet theorems"],
+    trusted_base=COMPILE_TB, assumptions=["distinct reward accounts per withdrawal directive in generated cases"],
+    keep_ids=_only(lambda i: i in (1, 2, 121, 122) or 200 <= i < 300),
+    classify=_cls({121: "many_utxo_input_with_redeemer", 122: "shared_policy_different_redeemers"}),
+    check_names={201: "spend and mint redeemers of the decoded witness set = the map built from the source in ledger order",
+                 202: "every withdrawal with a redeemer yields a Reward redeemer",
+                 121: "a multi-UTxO script input gets a single redeemer", 122: "two mint/burn blocks on one policy with different redeemers collapse to one"},
+)
+PROPS["C10"] = dict(
+    level="translation_validation", runner="C10", model_files=COMPILE_MODEL, proof_files=["Compile_proofs.v"], check_files=["Compile_check.v"],
+    theorems=["C10_hash_fields_presence", "C10_no_empty_multiasset"],
+    partial=["digests, decoder acceptance and byte identity are checked on every emitted payload (clauses 311-316), they are statements about pallas / blake2b",
+             "cross-process byte identity (body input order of a multi-UTxO block is hash-set order) is not exercised by the quick tier"],
+    trusted_base=COMPILE_TB + ["pallas' decoder and hasher recompute the digests the check compares with"],
+    assumptions=[],
+    keep_ids=_only(lambda i: i in (1, 2) or 300 <= i < 400),
+    check_names={301: "no empty multi-asset map", 302: "no empty set/map field", 303: "no duplicate inputs", 304: "network id",
+                 305: "script data hash present iff redeemers", 306: "auxiliary data hash present iff metadata",
+                 311: "payload decodes as a Conway transaction", 312: "reported hash = Blake2b-256 of the body bytes in the payload",
+                 313: "auxiliary data hash = digest of the auxiliary data", 314: "compiling twice gives identical bytes", 316: "script data hash = digest of redeemers + language view"},
+)
+PROPS["C14"] = dict(
+    level="proof", runner="C14", model_files=COMPILE_MODEL, proof_files=["Compile_proofs.v"], check_files=["Compile_check.v"],
+    theorems=["C14_hash_construction_total", "C14_number_conversions_total", "C14_int_arithmetic_total", "C14_utxo_refs_total"],
+    partial=["panic-freedom of the code is as strong as the correspondence: the model predicts Panic exactly where its own sites are; any other panic of the implementation is a disagreement (clause 1); stack exhaustion and panics inside dependencies can only be observed"],
+    trusted_base=COMPILE_TB, assumptions=[],
+    keep_ids=_only(lambda i: i in (1, 2) or 140 <= i < 150),
+    check_names={141: "fixed-size hash from wrong-length bytes", 142: "textual utxo reference", 143: "missing script bytes", 144: "native script decode",
+                 145: "arithmetic overflow", 146: "Coerce::IntoScript todo!", 149: "other panic site of the model"},
+)
